@@ -228,20 +228,30 @@ def idempotent_appliers(ctx, p):
         if not b:
             continue
         seeds = [b.term(s)['d'][0] for s in b.call_sites('std::slice::from_raw_parts_mut', 'core::slice::from_raw_parts_mut')]
-        taint = lib.forward_taint(b, seeds)
         ALLOWED = ['re:IndexMut.*::index_mut$', "log::LogReader::<'a>::read", 'std::ops::Try::branch', 're:Result.*::map_err$', 'std::ops::FromResidual::from_residual',
                    're:^core::fmt', 're:^std::fmt', 're:^log::']
-        bad = []
-        for bi, t in b.calls():
-            if any(op_place(a) and op_place(a)[0] in taint for a in t['a']) and not call_matches(t, ALLOWED):
-                bad.append('%s at %s' % (t.get('r') or t.get('f'), b.loc(bi)))
-        for bi in b.normal_blocks():
-            for s in b.blocks[bi]['s']:
-                if s['k'] == 'assign' and s['r']['k'] in ('use', 'bin', 'un', 'cast'):
-                    for a in s['r']['a']:
-                        pl = op_place(a)
-                        if pl and pl[0] in taint and '*' in pl[1:] and any(isinstance(e, str) and e.startswith('[') for e in pl[1:]):
-                            bad.append('element read %s at %s' % (core.place_str(pl), b.loc(bi)))
+        def misuse(body, seeds_, depth=2):
+            out = []
+            taint = lib.forward_taint(body, seeds_)
+            for bi, t in body.calls():
+                hit = [i for i, a in enumerate(t['a']) if op_place(a) and op_place(a)[0] in taint]
+                if not hit or call_matches(t, ALLOWED):
+                    continue
+                # a private helper of the applier that is handed the view: the same rule inside it, seeded with its parameters
+                hs = [n for n in core.call_names(t) if n in F.bodies and lib.confined_through(F, n, {fn})]
+                if hs and depth > 0:
+                    out += misuse(F.bodies[hs[0]], [i + 1 for i in hit], depth - 1)
+                    continue
+                out.append('%s at %s' % (t.get('r') or t.get('f'), body.loc(bi)))
+            for bi in body.normal_blocks():
+                for s in body.blocks[bi]['s']:
+                    if s['k'] == 'assign' and s['r']['k'] in ('use', 'bin', 'un', 'cast'):
+                        for a in s['r']['a']:
+                            pl = op_place(a)
+                            if pl and pl[0] in taint and '*' in pl[1:] and any(isinstance(e, str) and e.startswith('[') for e in pl[1:]):
+                                out.append('element read %s at %s' % (core.place_str(pl), body.loc(bi)))
+            return out
+        bad = misuse(b, seeds)
         ctx.ob(p + 'c no-read-modify-write %s' % fn, 'K4-dataflow', fn,
                'the raw mutable view of the mapped chunk is only ever handed to LogReader::read (never read back, combined or copied from)', not bad and bool(seeds), '; '.join(bad[:3]))
 
